@@ -32,9 +32,24 @@ type c13dScenario struct {
 	// TLSA at the MX name / at the expanded name: 0 none (secure denial), 1 secure records, 2 records without AD, 3 SERVFAIL
 	AtMX    int `json:"tlsa_at_mx"`
 	AtAlias int `json:"tlsa_at_expanded_name"`
+	// the host names are 251 octets long: no TLSA owner name exists for them (the TLSA states are "none" then)
+	Long bool `json:"long_names,omitempty"`
+}
+
+func (sc c13dScenario) name(i int) string {
+	if sc.Long {
+		return c13dLongName(i)
+	}
+	return c13dName(i)
 }
 
 func c13dName(i int) string { return fmt.Sprintf("h%d.c13.invalid.", i) }
+
+// c13dLongName: a host name of 251 octets - valid, resolvable, can be signed - for which "_25._tcp.<name>" exceeds the
+// 255 octets of a domain name, so that no TLSA record can exist for it.
+func c13dLongName(i int) string {
+	return fmt.Sprintf("h%d.", i) + strings.Repeat(strings.Repeat("a", 58)+".", 4) + "c13.invalid."
+}
 
 const (
 	c13dDataMX    = "aa01"
@@ -62,7 +77,7 @@ func c13dServer(sc c13dScenario) (addr string, stop func(), err error) {
 	last := len(sc.AliasAD)
 	index := func(name string) int {
 		for i := 0; i <= last; i++ {
-			if strings.EqualFold(name, c13dName(i)) {
+			if strings.EqualFold(name, sc.name(i)) {
 				return i
 			}
 		}
@@ -74,7 +89,7 @@ func c13dServer(sc c13dScenario) (addr string, stop func(), err error) {
 		reply.RecursionAvailable = true
 		q := m.Question[0]
 		cname := func(i int) miekgdns.RR {
-			return &miekgdns.CNAME{Hdr: miekgdns.RR_Header{Name: c13dName(i), Rrtype: miekgdns.TypeCNAME, Class: miekgdns.ClassINET, Ttl: 300}, Target: c13dName(i + 1)}
+			return &miekgdns.CNAME{Hdr: miekgdns.RR_Header{Name: sc.name(i), Rrtype: miekgdns.TypeCNAME, Class: miekgdns.ClassINET, Ttl: 300}, Target: sc.name(i + 1)}
 		}
 		switch q.Qtype {
 		case miekgdns.TypeA, miekgdns.TypeAAAA:
@@ -89,7 +104,7 @@ func c13dServer(sc c13dScenario) (addr string, stop func(), err error) {
 				ad = ad && sc.AliasAD[i]
 			}
 			if q.Qtype == miekgdns.TypeA {
-				reply.Answer = append(reply.Answer, &miekgdns.A{Hdr: miekgdns.RR_Header{Name: c13dName(last), Rrtype: miekgdns.TypeA, Class: miekgdns.ClassINET, Ttl: 300}, A: net.IPv4(127, 0, 0, 1)})
+				reply.Answer = append(reply.Answer, &miekgdns.A{Hdr: miekgdns.RR_Header{Name: sc.name(last), Rrtype: miekgdns.TypeA, Class: miekgdns.ClassINET, Ttl: 300}, A: net.IPv4(127, 0, 0, 1)})
 			}
 			reply.AuthenticatedData = ad
 		case miekgdns.TypeCNAME:
@@ -161,7 +176,7 @@ func c13dRun(sc c13dScenario) (vs []ev.V) {
 	d := &daneDelivery{c: pol}
 	ctx, cancel := context.WithTimeout(context.Background(), 20*time.Second)
 	defer cancel()
-	recs, derr := d.discoverTLSA(ctx, c13dName(0))
+	recs, derr := d.discoverTLSA(ctx, sc.name(0))
 
 	aliases := len(sc.AliasAD)
 	aliasesSecure := true
@@ -178,15 +193,19 @@ func c13dRun(sc c13dScenario) (vs []ev.V) {
 		}
 	}
 	desc := fmt.Sprintf("MX %s, aliases secure %v, address records secure %v, TLSA at the MX name: %s, at the expanded name: %s; discoverTLSA returned %d record(s) (from the MX name: %v, from the expanded name: %v), err=%v",
-		c13dName(0), sc.AliasAD, sc.AddrAD, c13dState(sc.AtMX), c13dState(sc.AtAlias), len(recs), fromMX, fromAlias, derr)
+		sc.name(0), sc.AliasAD, sc.AddrAD, c13dState(sc.AtMX), c13dState(sc.AtAlias), len(recs), fromMX, fromAlias, derr)
 	if aliases > 0 && !aliasesSecure {
 		if fromAlias {
 			vs = append(vs, ev.Vf("discovery:records-of-insecurely-reached-name-used", "%s", desc))
 		}
 		// (only a failure that names the expanded name: a lookup that timed out on a loaded machine is not the scripted SERVFAIL)
-		if derr != nil && sc.AtAlias == 3 && sc.AtMX != 3 && strings.Contains(strings.ToLower(derr.Error()), "_25._tcp."+strings.TrimSuffix(c13dName(aliases), ".")) {
+		if derr != nil && sc.AtAlias == 3 && sc.AtMX != 3 && strings.Contains(strings.ToLower(derr.Error()), "_25._tcp."+strings.TrimSuffix(sc.name(aliases), ".")) {
 			vs = append(vs, ev.Vf("discovery:failure-at-insecurely-reached-name-decides", "%s", desc))
 		}
+	}
+	if sc.Long && derr != nil && strings.Contains(derr.Error(), "_25._tcp.") {
+		// "absent records never cause a refusal": where no record can exist none is absent more thoroughly
+		vs = append(vs, ev.Vf("discovery:name-too-long-for-a-tlsa-record-refused", "%s", desc))
 	}
 	if (fromMX && sc.AtMX == 2) || (fromAlias && sc.AtAlias == 2) {
 		vs = append(vs, ev.Vf("discovery:unauthenticated-records-used", "%s", desc))
@@ -227,6 +246,9 @@ func TestVerifC13Discovery(t *testing.T) {
 		}
 		if len(sc.AliasAD) > 0 {
 			sc.AtAlias = rapid.IntRange(0, 3).Draw(t, "tlsa_at_expanded_name")
+		}
+		if rapid.IntRange(0, 7).Draw(t, "long_names") == 0 {
+			sc.Long, sc.AtMX, sc.AtAlias = true, 0, 0
 		}
 		return sc
 	}, Run: c13dRun, Info: func(sc c13dScenario) ev.Info {
